@@ -49,7 +49,7 @@ def assemble (c : Cfg) (strs : List Text) : Text :=
   let pad : Text := if c.nspad then [] else [' ']
   let body : Text :=
     if c.lonce then
-      (if c.kind != Gen.kind_list then ot else []) ++ strs.foldr (· ++ ·) []
+      (if c.kind != Gen.kind_list && !strs.isEmpty then ot else []) ++ strs.foldr (· ++ ·) []
     else if c.kind == Gen.kind_list then
       joinText (if c.ljc.isEmpty then pad else c.ljc) strs
     else if !c.sym.isEmpty then
